@@ -196,7 +196,7 @@ def gen_faults(rng, opkind, enabled, rate, est=None):
 
 
 def generate(run_seed, fault_config="all", jit=False, budget=4.0, max_pto=2, allow_n3lo=False,
-             max_ops=12, n3lo=False, big=False, huge=False, meta=None):
+             max_ops=12, n3lo=False, big=False, huge=False, many=False, meta=None):
     st = Streams(run_seed)
     cfg, ops_rng, frng = st["config"], st["ops"], st["faults"]
     th, ob = cards.gen_settings(cfg, max_pto=1 if big else max_pto, allow_n3lo=allow_n3lo)
@@ -321,6 +321,24 @@ def generate(run_seed, fault_config="all", jit=False, budget=4.0, max_pto=2, all
         settings["S1"] = {"theory": th1, "obs": ob1}
         runners["R2"] = ("S1", copy.deepcopy(base))
 
+    if many and not huge and not n3lo:
+        # "many-runner" runs: up to six live runners in one process (same settings with permuted / sub / super
+        # lists, and up to two further settings), so that anything kept per process or per class rather than
+        # per runner meets more than two or three owners
+        k = 3
+        while len(runners) < cfg.randint(4, 6) and k < 8:
+            if cfg.random() < 0.5:
+                runners[f"R{k}"] = ("S0", _variant(cfg, base, th, ob, pools))
+            else:
+                sname = f"S{1 + sum(1 for x in settings if x != 'S0')}"
+                thm, obm = _mutate_settings(cfg, th, ob)
+                settings[sname] = {"theory": thm, "obs": obm}
+                runners[f"R{k}"] = (sname, _variant(cfg, base, thm, obm, pools))
+            k += 1
+        rk = list(runners.items())
+        cfg.shuffle(rk)
+        runners = dict(rk)
+
     # --- fault swarm
     if fault_config == "none":
         enabled = []
@@ -358,9 +376,24 @@ def generate(run_seed, fault_config="all", jit=False, budget=4.0, max_pto=2, all
                         ("drop_cache", 1), ("evict_global", 0.4)]
         if handles:
             choices.append(("scribble", 2))
+        if not huge:
+            # the one-shot entry point (construct + compute + drop) on a permuted / extended card
+            choices.append(("run_yadism", 1.0 if created else 0.6))
         kind = cards.wchoice(ops_rng, choices)
         op = {"id": len(ops), "client": client, "op": kind}
-        if kind == "new_runner":
+        if kind == "run_yadism":
+            s = ops_rng.choice(sorted(settings))
+            th_r, ob_r = settings[s]["theory"], settings[s]["obs"]
+            lst = _variant(ops_rng, base, th_r, ob_r, pools) if ops_rng.random() < 0.8 else copy.deepcopy(base)
+            c = _list_cost(th_r, ob_r, lst, jit) + 0.5 * _ref_cost(th_r, ob_r, lst, jit)
+            if cost + c + refc > hist_budget and any(o["op"].endswith("get_result") or o["op"] == "run_yadism" for o in ops):
+                if steps > 30:
+                    break
+                continue
+            cost += c
+            op.update(settings=s, observables=lst)
+            handles.append(len(ops))
+        elif kind == "new_runner":
             r = pending.pop(0)
             s, lst = runners[r]
             op.update(runner=r, settings=s, observables=lst)
@@ -400,6 +433,13 @@ def generate(run_seed, fault_config="all", jit=False, budget=4.0, max_pto=2, all
             op["handle"] = ops_rng.choice(handles)
             op["mode"] = ops_rng.choice(["values", "orders", "kin", "all"])
         est = None
+        if kind == "run_yadism":
+            th_r, ob_r = settings[op["settings"]]["theory"], settings[op["settings"]]["obs"]
+            est = est_sites("get_result", th_r, ob_r, op["observables"], True)
+            e0 = est_sites("new_runner", th_r, ob_r, op["observables"], True)
+            est["get_esf"] = est.get("get_esf", 0) + e0["get_esf"]
+            est["line"] = est.get("line", 0) + e0["line"]
+            est["console"] = 0
         if kind in ("new_runner", "get_result", "sf_get_result", "elem_get_result"):
             s_, lst_ = runners[op["runner"]]
             if kind in ("new_runner", "get_result"):
@@ -412,7 +452,7 @@ def generate(run_seed, fault_config="all", jit=False, budget=4.0, max_pto=2, all
             est = est_sites(kind, settings[s_]["theory"], settings[s_]["obs"], scope, first)
         op["faults"] = gen_faults(frng, kind, weighted, rate, est)
         ops.append(op)
-        if kind.endswith("get_result") and any(f["do"].startswith("interrupt") for f in op["faults"]) \
+        if (kind.endswith("get_result") or kind == "run_yadism") and any(f["do"].startswith("interrupt") for f in op["faults"]) \
                 and frng.random() < 0.7:
             # faults without workload test nothing: an interrupted request is usually followed by the
             # caller simply asking again (same request, no fault) — the state the interrupt left behind
@@ -423,7 +463,8 @@ def generate(run_seed, fault_config="all", jit=False, budget=4.0, max_pto=2, all
             retry["retry_of"] = op["id"]
             handles.append(len(ops))
             ops.append(retry)
-        if not pending and sum(1 for o in ops if o["op"].endswith("get_result")) >= 2 and ops_rng.random() < 0.12:
+        if not pending and sum(1 for o in ops if o["op"].endswith("get_result") or o["op"] == "run_yadism") >= 2 \
+                and ops_rng.random() < 0.12:
             break
     trace = {
         "format": 1,
@@ -692,6 +733,9 @@ class Execution:
             _clear_globals()
             self.log(i, kind)
             return
+        if kind == "run_yadism":
+            self._run_yadism(i, op)
+            return
         if kind == "scribble":
             h = self.handles.get(op["handle"])
             if h is None:
@@ -781,6 +825,46 @@ class Execution:
         if any(f[3].startswith("evict") for f in self.sched.fired[nfired0:]):
             self.probes["evict_inside_request"] += 1
 
+    def _run_yadism(self, i, op):
+        """The one-shot entry point: a runner of its own, constructed, asked once and dropped."""
+        import yadism
+
+        s = op["settings"]
+        lst = op["observables"]
+        th, ob = _mk_card(self.trace["settings"][s], lst)
+        self.probes["run_yadism"] += 1
+        try:
+            out = yadism.run_yadism(th, ob)
+        except SimInterrupt:
+            self.interrupted_ops += 1
+            self.first_interrupt_op = i if self.first_interrupt_op is None else self.first_interrupt_op
+            self.probes["interrupted_request"] += 1
+            self.log(i, "run_yadism", "interrupted")
+            return
+        except Exception as e:  # noqa: BLE001
+            self.requests.append({"op": i, "kind": "oneshot_raised", "settings": s, "observables": lst,
+                                  "exc": _exc_name(e)})
+            self.log(i, "run_yadism", "raise", _exc_name(e))
+            self.probes["natural_reject"] += 1
+            return
+        parts = []
+        for name, pts in lst:
+            got = out.get(name) if hasattr(out, "get") else None
+            if got is None or len(got) != len(pts):
+                self.violation("result-shape", i, [name],
+                               f"observable {name}: got {None if got is None else len(got)} results for {len(pts)} points")
+                return
+            for j, p in enumerate(pts):
+                parts.append(((name, j, p, "runner"), got[j], None))
+        parts2 = []
+        for label, res, _ in parts:
+            c = canon.result_canon(res)
+            d = canon.result_digest(res)
+            parts2.append((label, res, d))
+            self.requests.append({"op": i, "kind": "returned", "settings": s, "label": label, "canon": c})
+            self.log(i, "run_yadism", label[0], label[1], d)
+        self.handles[op.get("id", i)] = {"obj": out, "parts": parts2, "scribbled": False}
+
     def _probe_partial(self, r):
         try:
             for o in r.observables.values():
@@ -865,6 +949,28 @@ class Execution:
                 if ref[1] != rq["canon"]:
                     self.violation("result-differs", i, [name, j, p],
                                    canon.describe_diff(rq["canon"], ref[1]))
+                    return
+            elif rq["kind"] == "oneshot_raised":
+                # run_yadism raised: the bare settings, a point (at construction or at run time) or a
+                # point-less observable name must be rejected in isolation as well
+                e = rq["exc"]
+                ok = self.refs.get(s, None, None, "runner")[0] != "ok"
+                if not ok:
+                    for n, pl in rq["observables"]:
+                        if not pl and self._name_ref(s, n)[0] != "ok":
+                            ok = True
+                        for p in pl:
+                            if self.refs.get(s, n, p, "runner")[0] != "ok":
+                                ok = True
+                                break
+                        if ok:
+                            break
+                if not ok and self.first_interrupt_op is not None and i > self.first_interrupt_op:
+                    self.probes["raised_after_earlier_interrupt"] += 1
+                    continue
+                if not ok:
+                    self.violation("result-became-rejection", i, [n for n, _ in rq["observables"]],
+                                   f"run_yadism raised {e}; the settings and every isolated point are accepted")
                     return
             elif rq["kind"] == "raised":
                 e = rq["exc"]
@@ -976,6 +1082,8 @@ def normalise(trace):
                 continue
         elif k == "evict_global":
             pass
+        elif k == "run_yadism":
+            handles.add(op["id"])
         else:
             if op["runner"] not in created:
                 continue
@@ -993,7 +1101,7 @@ def normalise(trace):
         ops.append(op)
     t = dict(t)
     t["ops"] = ops
-    used = {o["settings"] for o in ops if o["op"] == "new_runner"}
+    used = {o["settings"] for o in ops if o["op"] in ("new_runner", "run_yadism")}
     t["settings"] = {k: v for k, v in t["settings"].items() if k in used}
     return t
 
@@ -1019,7 +1127,7 @@ def candidates(trace):
             yield f"drop fault {i}.{j}", t
     # 3. fewer observables / points per runner
     for i, op in enumerate(ops):
-        if op["op"] != "new_runner":
+        if op["op"] not in ("new_runner", "run_yadism"):
             continue
         lst = op["observables"]
         if len(lst) > 1:
@@ -1035,7 +1143,7 @@ def candidates(trace):
                     # shift element indices of ops on that runner / observable
                     keep = []
                     for o in t["ops"]:
-                        if o["op"] == "elem_get_result" and o["runner"] == op["runner"] and o["obs"] == name:
+                        if o["op"] == "elem_get_result" and o["runner"] == op.get("runner") and o["obs"] == name:
                             if o["idx"] == k:
                                 continue
                             if o["idx"] > k:
@@ -1073,7 +1181,7 @@ def candidates(trace):
             yield f"simplify {s} {upd}", t
     # 5. plain observable spellings / kinds
     for i, op in enumerate(ops):
-        if op["op"] != "new_runner":
+        if op["op"] not in ("new_runner", "run_yadism"):
             continue
         for j, (name, pts) in enumerate(op["observables"]):
             if name != "F2_light" and not cards.is_xs(name):
@@ -1082,6 +1190,6 @@ def candidates(trace):
                 if any(n == "F2_light" for n, _ in op["observables"]):
                     continue
                 for o in t["ops"]:
-                    if o.get("runner") == op["runner"] and o.get("obs") == name:
+                    if "runner" in op and o.get("runner") == op["runner"] and o.get("obs") == name:
                         o["obs"] = "F2_light"
                 yield f"rename {name} -> F2_light", t
